@@ -7,28 +7,36 @@ from parglare.exceptions import DisambiguationError, SRConflicts, RRConflicts, G
 
 import gen
 from pcommon import *
+from enc import enc_items
 
 MANIFEST_ENTRY = {
     "category": "proof",
-    "text": "Lean 4 theorem: for every table satisfying the decidable predicate Table.wf, every input and every "
-            "recognizer behaviour, whatever the LR driver model accepts is a derivation tree of the input "
-            "(C04_sound); the chart oracle for 'is a sentence' and the tree checker are proved correct. Every "
-            "implementation table is checked with Table.wf by the compiled Lean code, the model driver is run "
-            "against Parser.parse on the same table/input (outcome, tree, error position), and the exactness "
-            "clause (deterministic strategy-free table => accepts every sentence, GLR has exactly that one tree) "
-            "is evaluated against the verified chart oracle",
+    "text": "Lean 4 theorems. Soundness: for every table satisfying the decidable predicate Table.wf, every input "
+            "and every recognizer behaviour, whatever the LR driver model accepts is a derivation tree of the input "
+            "(C04_sound). Exactness: for every well-formed table that passes the completeness validator "
+            "(Spec/LRValid.lean: FIRST data closed, item sets closed, every shift/goto/reduction/accept an item "
+            "calls for present), whose cells hold at most one action and whose expected terminals are never "
+            "lexically ambiguous on the input, the driver accepts EXACTLY the sentences "
+            "(C04_exact_when_deterministic; simulation of the derivation by the abstract LR machine, then by the "
+            "driver with its scanner). Every implementation table is checked with Table.wf; every deterministic "
+            "strategy-free table is run through the validator with the implementation's own item sets and FIRST "
+            "sets, and detTableB/lexDetB are evaluated per table and input; the model driver is run against "
+            "Parser.parse on the same table/input (outcome, tree, error position); the chart oracle and the tree "
+            "checker are proved correct; 'GLR has exactly that one tree' is compared on the explored scope",
     "note": "trusted: Lean kernel; Model/LR.lean, Model/Lex.lean are hand-written from parser.py and validated by "
             "correspondence; recognizers and layout skipping enter as data (match table, skip table computed by the "
-            "real code); the exactness clause (classical LR completeness) is decided by oracle evaluation on the "
-            "explored scope, not by a theorem",
-    "technique": "Lean 4 proof (stack invariant + walk-back lemma) + verified checkers on implementation output + "
-                 "model/implementation correspondence",
+            "real code); the theorem's side conditions on the decoded data (table empty beyond its n states, matches "
+            "inside the text) hold by construction of the decoder and are not re-checked; uniqueness of the parse "
+            "tree and equality with GLR's tree are oracle comparisons",
+    "technique": "Lean 4 proof (stack invariant + walk-back lemma; completeness by validation + simulation) + verified "
+                 "checkers and validators on implementation output + model/implementation correspondence",
 }
 
 PROP = "C04"
 LEVEL = "proof"
 THEOREMS = ["C04_sound", "C04_sound_prefix", "C04_tree_checker_correct", "C04_sentence_oracle_correct",
-            "C04_lookahead_is_token_edge"]
+            "C04_lookahead_is_token_edge",
+            "C04_complete_when_deterministic", "C04_exact_when_deterministic", "det_complete", "detOK_of_bool"]
 META = {
     "rule": "cases = (grammar, prefer_shifts, prefer_shifts_over_empty, LALR|SLR, input incl. layout variants) for "
             "which Parser() constructs; non-trivial = accepted input with a tree of >= 2 interior nodes, or a "
@@ -39,7 +47,7 @@ META = {
                    "against the verified chart oracle",
     "trusted_base": ["Model/LR.lean, Model/Lex.lean, Model/Table.lean hand-written from parser.py / tables; "
                      "match and skip tables are produced by the real recognizers and _skipws"],
-    "assumptions": ["exactness clause decided on explored scope by oracle, not by theorem"],
+    "assumptions": ["unambiguity (single parse tree) and GLR = LR tree are compared on the explored scope"],
 }
 
 
@@ -103,6 +111,9 @@ def run_unit(u):
                     b.add("grammar", enc_grammar(num))
                     b.add("table", enc_table(num, p.table))
                     qwf = b.add("wf")
+                    # hypotheses of C04_exact_when_deterministic on this table (item sets of the implementation)
+                    qv = b.add("lrvalid", enc_items(num, p.table, tname == "LALR", 1)) if det else None
+                    qdets = []
                     checks = []
                     for text in inputs:
                         case = {"grammar": gtxt, "options": opts, "input": text}
@@ -126,6 +137,8 @@ def run_unit(u):
                         b.add("input", enc_input(num, p, text))
                         qlr = b.add("lr", 1, 1, FUEL)
                         qs = b.add("sentence", CHART_FUEL)
+                        if det:
+                            qdets.append(b.add("detok"))
                         qd = b.add("derives", 1, enc_tree(num, impl[2])) if impl[0] == "ok" else None
                         glr_out = None
                         if det:
@@ -144,6 +157,19 @@ def run_unit(u):
                         res["violations"].append({"kind": "table-not-wf",
                                                   "case": {"grammar": gtxt, "options": opts},
                                                   "observed": out[qwf]})
+                    if qv is not None:
+                        if out[qv] != "lrvalid 1":
+                            res["disagreements"].append({"case": {"grammar": gtxt, "options": opts},
+                                                         "what": "completeness validator rejects a deterministic "
+                                                                 "strategy-free table", "model": out[qv][:300]})
+                        for qd_ in qdets:
+                            tb, lx = out[qd_].split()[1:3]
+                            if tb != "1":
+                                res["disagreements"].append({"case": {"grammar": gtxt, "options": opts},
+                                                             "what": "detTableB fails on a table whose cells are single",
+                                                             "model": out[qd_]})
+                                break
+                            bump(st, "exactness_theorem_applies" if lx == "1" else "lexically_ambiguous_inputs")
                     for case, impl, qlr, qs, qd, det, glr_out in checks:
                         m = out[qlr]
                         if impl[0] == "ok":
